@@ -1133,3 +1133,40 @@ Proof.
   - intros H. vm_compute in H. discriminate.
   - vm_compute. reflexivity.
 Qed.
+
+(* ------------------------------------------------------------------------------------------ *)
+(* unit level                                                                                   *)
+(* ------------------------------------------------------------------------------------------ *)
+Lemma lint_covered : forall root p, covered root p -> lint_model root p = Some (expected root p).
+Proof.
+  intros root p H. unfold covered, expected in *.
+  destruct (p_sens p) as [[|names]|] eqn:S.
+  - apply no_lint_cases. right. left. exact S.
+  - destruct H as [H|[Hc [Hf [Hr [Hw Hl]]]]].
+    + rewrite H. apply no_lint_cases. right. right. exact H.
+    + rewrite Hc. apply lint_exact; assumption.
+  - apply no_lint_cases. left. exact S.
+Qed.
+
+Lemma lint_all_covered : forall root ps, Forall (covered root) ps ->
+  lint_all root ps = Some (flat_map (expected root) ps).
+Proof.
+  intros root ps H; induction H as [|p r Hp _ IH]; [reflexivity|].
+  simpl. rewrite (lint_covered root p Hp), IH. reflexivity.
+Qed.
+
+Lemma unit_exact : forall root u, Forall (covered root) (procs_of u) ->
+  analyze_unit root u = Some (flat_map (expected root) (procs_of u)).
+Proof. intros root u H. apply lint_all_covered, H. Qed.
+
+Lemma unit_arch_only_refuted :
+  Forall (covered root6) (procs_of u_entity) /\
+  analyze_unit root6 u_entity = Some [DMissing (tk 0) [(6, tk 9)]] /\
+  analyze_unit_arch_only root6 u_entity = Some [] /\
+  analyze_unit_arch_only root6 u_entity <> Some (flat_map (expected root6) (procs_of u_entity)).
+Proof.
+  split.
+  - simpl. constructor; [|constructor]. unfold covered. simpl. right.
+    repeat split; vm_compute; reflexivity.
+  - split; [vm_compute; reflexivity|]. split; [reflexivity|]. intros H. vm_compute in H. discriminate.
+Qed.
